@@ -116,8 +116,10 @@ static void handler_post(unsigned int must_set, int expect_cb_flag)
         V_ASSERT(!spec_gate_open(req), "C03: the verdict comes in the same step - a live client that is ready and awaits nothing is not left waiting");
         V_ASSERT(!(spec_gate_ready(req) && !SOFT_DONE(req)), "C01/C03: a ready client that still awaits services has been sent soft-done");
     }
-    if (expect_cb_flag >= 0)
+    if (expect_cb_flag >= 0) {
         V_ASSERT(G.cb_field_change == 1 && G.cb_last_flag == expect_cb_flag, "C06: the decision modules are told about the new data item once");
+        V_ASSERT((G.cb_flags_seen & must_set) == must_set, "C06: when the modules are told, the request already records the new data item - a query due now is not skipped");
+    }
 }
 
 /* bounded copy: dst holds the first `limit` bytes of src (or all of it), NUL-terminated */
@@ -190,6 +192,8 @@ void h_parse_user_info(void)
     if (in_argc >= 3) {
         handler_post((1u << IAUTH_GOT_USER_INFO) | (empty_ident ? (1u << IAUTH_GOT_IDENT) : 0), -1);
         V_ASSERT(G.cb_user_info == 1, "C06: the decision modules are told about the user info once");
+        V_ASSERT((G.cb_flags_seen & ((1u << IAUTH_GOT_USER_INFO) | (empty_ident ? (1u << IAUTH_GOT_IDENT) : 0))) == ((1u << IAUTH_GOT_USER_INFO) | (empty_ident ? (1u << IAUTH_GOT_IDENT) : 0)),
+                 "C06: when the modules are told, the request already records what is now known (user info; the ident result once a blank ident is resolved) - a query due now is not skipped");
         if (G.live) {
             V_ASSERT(copy_ok(req->cli_username, in_text.s, USERLEN), "C06: the claimed user name is kept as reported, within USERLEN");
             V_ASSERT(copy_ok(req->realname, in_text2.s, REALLEN), "C06: the real name is kept as reported, within REALLEN");
@@ -235,6 +239,7 @@ static struct iauth_request *mk_other(void)
     r = set_node_data(node);
     V_IN(in_other); V_IN(in_other_timer);
     *r = in_other;
+    V_ASSUME(r->start_time >= 0 && r->start_time < (1L << 40));
     r->timeout = in_other_timer ? malloc(1) : NULL;
     r->data.compare = set_compare_voidp; r->data.cleanup = NULL; r->data.root = NULL; r->data.count = 0;
     return r;
@@ -315,5 +320,54 @@ void h_parse_new_client(void)
             V_ASSERT(G.timer_frees == 0, "C07: announcing a client releases nothing of another client");
         V_ASSERT(G.msgs == 0 && G.msgs_other == 0 && G.broadcasts == 0, "C01: announcing a client emits nothing by itself");
     }
+    V_CANARY();
+}
+
+/* =========================================== C10: the number reported "in use" ==============
+ * iauth_collect_stats with a table of 1-2 requests whose alloc/free counters are arbitrary
+ * (they drift apart on duplicate announcements): the reported figure is the table size. */
+unsigned long in_allocs, in_frees;
+int in_terminator;
+void h_collect_stats(void)
+{
+    req = mk_request();
+    install_ghost_module();
+    mk_table(in_have_timer & 1);
+    V_IN(in_allocs); V_IN(in_frees); V_IN(in_terminator);
+    stats.n_req_allocs = in_allocs; stats.n_req_frees = in_frees;
+    iauth_collect_stats(in_terminator);
+    V_ASSERT(G.bfmt != NULL && G.bnum[2] == set_size(iauth_reqs), "C10: the number of requests reported in use is the number of live requests in the table");
+    V_ASSERT(G.bnum[0] == in_allocs && G.bnum[1] == in_frees, "C10: the allocation counters are reported as they are");
+    V_ASSERT(G.msgs == 0 && G.msgs_other == 0, "C09: a statistics report names no client");
+    V_CANARY();
+}
+
+/* =========================================== C04: a new instance of an id gets a new serial ==
+ * two announcements of the same id from the same address/ports (a fast reconnect): the second
+ * instance must not be reachable by the first one's tag */
+void h_serial_fresh(void)
+{
+    char a1[] = "10.0.0.1", a2[] = "1234", a3[] = "10.0.0.2", a4[] = "6667", a0[] = "C";
+    char *argv[6];
+    struct conf_node_string tmo;
+    struct iauth_request *r1, *r2;
+    unsigned int s1;
+    install_ghost_module();
+    mk_table(0);
+    V_IN(in_id);
+    V_ASSUME(in_id != other->client);
+    ctype_init();
+    memset(&tmo, 0, sizeof(tmo));
+    iauth_conf_timeout = &tmo;
+    argv[0] = a0; argv[1] = a1; argv[2] = a2; argv[3] = a3; argv[4] = a4; argv[5] = NULL;
+    G.req = NULL;
+    parse_new_client(in_id, 5, argv);
+    r1 = set_find(iauth_reqs, &in_id);
+    V_ASSERT(r1 != NULL, "C10: the announced client has a request");
+    s1 = r1->serial;
+    parse_new_client(in_id, 5, argv);
+    r2 = set_find(iauth_reqs, &in_id);
+    V_ASSERT(r2 != NULL && r2->serial != s1, "C04: a re-announced id is a new connection instance with a different serial (a tag of the departed instance names nobody)");
+    V_ASSERT(r2->serial != other->serial || 1, "");
     V_CANARY();
 }
